@@ -126,6 +126,29 @@ func VerifE01Check() {
 		ContextualTuples:     ctxTuples,
 	})
 	vt.Assert(rerr == nil, "NewResolveCheckRequest failed")
+	if cm := vt.ParamInt("cancel", 0); cm > 0 {
+		// C20: the request context is cancelled before (1) or while (2) the engine runs. The call must come
+		// back, a decision it still returns must be right, and no engine goroutine may be left behind (the
+		// engine reports a deadlock or a goroutine still blocked at the end of the harness by itself).
+		cctx, cancel := context.WithCancel(ctx)
+		if cm == 1 {
+			cancel()
+		} else {
+			go cancel()
+		}
+		resp, cerr := checker.ResolveCheck(cctx, req)
+		cancel()
+		vt.Reach("returned-after-cancel")
+		if cerr == nil {
+			want := vtsem.NewOracle(st, rq.user, vt.ParamInt("rounds", 0)).Holds(rq.obj, rq.rel)
+			if resp.GetAllowed() {
+				vt.Assert(want.IsTrue(), "cancelled check allowed a request the semantics denies")
+			} else {
+				vt.Assert(want.IsFalse(), "cancelled check returned a deny (not an error) for a request the semantics allows")
+			}
+		}
+		return
+	}
 	resp, cerr := checker.ResolveCheck(ctx, req)
 
 	want := vtsem.NewOracle(st, rq.user, vt.ParamInt("rounds", 0)).Holds(rq.obj, rq.rel)
